@@ -11,13 +11,21 @@ from checks import pcommon
 from vcommon import Violation
 
 LEVEL = "exploration"
+# libevent times its timers by the coarse monotonic clock, which may read up to a tick (4-10 ms) behind: an acceptance counts as
+# premature only when it is more than 50 ms early (the changes this oracle is for make it early by the gap between two clients: 80 ms+)
+TIMER_SLACK = 0.05
 PROPS = ["C07"]
 
 
 IDPOOL = [2, 3, 5, 7, 11, 13, 100, 4095, 65536, 7000001, 2147483647, -2, -2147483648, 268435456] + list(range(200, 240))
 
 
-def gen_script(rng, cid, cfg, length):
+def _long_text(rng, kind):
+    """A challenge / retry / refusal whose relayed line reaches the daemon's output buffer."""
+    return kind + " " + "".join(rng.choice("abcdefghij klmnop%:") for _ in range(rng.choice([990, 1000, 1010, 1024, 1100]))).strip()
+
+
+def gen_script(rng, cid, cfg, length, long_texts=0.0):
     """A client's own event stream; replies are addressed symbolically ('whatever I await from svc')."""
     f = gen.Fields(rng, boundary=0.2)
     ip = rng.choice(gen.IPS4 + gen.IPS6)
@@ -40,7 +48,9 @@ def gen_script(rng, cid, cfg, length):
     for a in pool:
         out.append(a)
         while svcs and rng.random() < 0.45:
-            out.append({"a": "reply", "svc": rng.choice(svcs), "text": gen.reply_text(rng, rng.choice(["OK", "OKacct", "AGAIN", "MORE", "junk", "OK", "NO"]))})
+            kind_ = rng.choice(["OK", "OKacct", "AGAIN", "MORE", "junk", "OK", "NO"])
+            out.append({"a": "reply", "svc": rng.choice(svcs), "text": _long_text(rng, kind_) if (kind_ in ("AGAIN", "MORE", "NO") and rng.random() < long_texts)
+                        else gen.reply_text(rng, kind_)})
     for sv in svcs:
         if rng.random() < 0.8:
             out.append({"a": "reply", "svc": sv, "text": gen.reply_text(rng, rng.choice(["OK", "OKacct", "OK"]))})
@@ -257,7 +267,7 @@ def _worker(a):
         for big in (134217727, 16777216):
             if big not in ids:
                 ids[-1 if big == 134217727 else -2] = big
-    scripts = {cid: gen_script(rng, cid, cfg, length) for cid in ids}
+    scripts = {cid: gen_script(rng, cid, cfg, length, long_texts=a.get("long_texts", 0.0)) for cid in ids}
     # optional: SIGUSR1 reloads that switch the service table (names keep their protocol) at fixed places of the merged order;
     # the solo reference of a client then has the reloads at the same places of ITS script
     if a.get("early_comeback"):
@@ -279,7 +289,8 @@ def _worker(a):
         ids = [y, x]
         yrep = rng.choice(["AGAIN retry", "MORE prove it", "OK acct1", "OK"])
         scripts = {
-            y: [{"a": "announce", "ip": "192.0.2.1", "port": 1024}, {"a": "password", "text": "+x acct1 pw"}, {"a": "reply", "svc": "chal.svc", "text": yrep},
+            y: [{"a": "announce", "ip": "192.0.2.1", "port": 1024}, {"a": "password", "text": "+x acct1 pw"},
+                {"a": "reply", "svc": "chal.svc", "text": ["AGAIN retry", "MORE prove it", "OK acct1", "OK"][a["variant"] % 4] if "variant" in a else yrep},
                 {"a": rng.choice(["disconnect", "registered"])}],
             x: [{"a": "announce", "ip": "192.0.2.2", "port": 1025}, {"a": "password", "text": "+x acct2 pw"},
                 {"a": "reply", "svc": "chal.svc", "text": rng.choice(["OK acct2", "NO refused"])},
@@ -520,15 +531,15 @@ def timer_neighbour_worker(a):
         for j in range(4):
             time.sleep(gap)
             cid = ida + 7 * j
-            ta[cid] = time.time()
+            ta[cid] = time.monotonic()
             s.do({"t": "announce", "id": cid, "ip": "192.0.2.2", "port": 1002 + j})
             for ev in ({"t": "password", "id": cid, "text": "+x alice pw"}, {"t": "host", "id": cid, "name": "ha"}, {"t": "ident", "id": cid, "name": "ia"},
                        {"t": "nick", "id": cid, "name": "na"}, {"t": "userinfo", "id": cid, "user": "ua", "real": "A"}, {"t": "hurry", "id": cid}):
                 s.do(ev)
-        while time.time() < max(ta.values()) + 2.8 and not s.dead and len(seen_at) < len(ta):
+        while time.monotonic() < max(ta.values()) + 2.8 and not s.dead and len(seen_at) < len(ta):
             time.sleep(0.05)
             out = s.do({"t": "noise", "line": "-1 M irc.example.net 1"})
-            now = time.time()
+            now = time.monotonic()
             for ln in out or []:
                 c = proto.classify(ln)
                 if c and c["kind"] == "client" and c["id"] in ta and c["cmd"] in "DR" and c["id"] not in seen_at:
@@ -538,7 +549,7 @@ def timer_neighbour_worker(a):
     except Exception:
         s.kill()
         raise
-    early = sorted((cid, t) for cid, t in seen_at.items() if t < 2.0)
+    early = sorted((cid, t) for cid, t in seen_at.items() if t < 2.0 - TIMER_SLACK)
     if early:
         res["viol"].append(("C07", "neighbour-timer", "neighbour-timer",
                             "client %d, soft-held by an unanswered query, was accepted %.2f s after ITS announcement although the request timeout is 2 s; other clients had "
@@ -563,6 +574,11 @@ def run(chk, tier, scale=1.0):
         cfg = pcommon.random_config(rng, want_class=(rng.random() < 0.3))
         jobs.append(dict(build=b, config=cfg.to_json(), seed=rng.randrange(1 << 30), nclients=rng.choice([3, 4, 5, 6]), length=12,
                          nmerges=8 if tier == "quick" else 40, reload=(i % 3 == 1 and len(cfg.services) > 0)))
+    # relayed texts that reach the output buffer's end, each interleaving also delivered in one piece
+    for i in range(4 if tier == "quick" else 40):
+        rng = random.Random("c07x/%d/%d" % (chk.seed, i))
+        cfg = proto.Config([("login.svc", "login"), ("drone.svc", "dronecheck")], timeout=3600)
+        jobs.append(dict(build=b, config=cfg.to_json(), seed=rng.randrange(1 << 30), nclients=3, length=12, nmerges=4 if tier == "quick" else 10, long_texts=0.7))
     # all 70 merges of two 4-event scripts
     for i in range(2 if tier == "quick" else 12):
         rng = random.Random("c07m/%d/%d" % (chk.seed, i))
@@ -577,7 +593,7 @@ def run(chk, tier, scale=1.0):
     for i in range(8 if tier == "quick" else 80):
         rng = random.Random("c07l/%d/%d" % (chk.seed, i))
         cfg = proto.Config([("chal.svc", rng.choice(["login", "login-ipr"])), ("keep.svc", "dronecheck")], timeout=3600)
-        jobs.append(dict(build=b, config=cfg.to_json(), seed=rng.randrange(1 << 30), nclients=2, length=9, nmerges=1, directed="leaver-barrier"))
+        jobs.append(dict(build=b, config=cfg.to_json(), seed=rng.randrange(1 << 30), nclients=2, length=9, nmerges=1, directed="leaver-barrier", variant=i))
     for i in range(6 if tier == "quick" else 60):
         rng = random.Random("c07r/%d/%d" % (chk.seed, i))
         cfg = proto.Config([("chal.svc", rng.choice(["login", "login-ipr", "combined"])), ("keep.svc", "dronecheck")], timeout=3600)
